@@ -84,7 +84,7 @@ func F5EPModules() []*F5EPModule {
 						if !used[3] {
 							continue
 						}
-						body.WriteString("  acc += textureSampleLevel(texa, smp, vec2<f32>(0.5), 0.0);\n")
+						body.WriteString("  acc += textureSampleLevel(texa, smp, vec2<f32>(0.5, 0.5), 0.0);\n")
 					} else {
 						body.WriteString("  " + f5Use(r, st) + "\n")
 					}
